@@ -1030,7 +1030,7 @@ class Client():
             query = splits.query
             fragment = splits.fragment
 
-            method = redirect.get('method')
+            method = redirect['request'].get('method')  # redirected request's method
 
             try:
                 host = coring.normalizeHost(hostname)
